@@ -1,91 +1,81 @@
-(** Evaluator of the C14 correspondence stream: for each generated (default
-    rule, rule definition, mode) and the implementation's observation it
-    computes (i) model = observation, (ii) the property's predicate on the
-    observation, (iii) the finding guards that fire on the input. *)
-From HV Require Export Base.Prelude C14.Model C14.Proofs.
+(** Evaluators of the C14 correspondence streams.  For each generated input
+    and the implementation's observation they compute
+    (i)   [v_corr]: the model's observation = the implementation's observation,
+    (ii)  [v_prop]: the property's predicate (C14/Spec.v: built from the
+          specification alone, on the implementation's observation),
+    (iii) [v_guards]: no finding is open, so no guard.
+    [C14_corr_implies_prop*] (Properties/C14.v) shows that (i) implies (ii) for
+    every input. *)
+From HV Require Export Base.Prelude C14.Model C14.Spec C14.Proofs.
 
-Record case := {
-  c_proxy : bool; c_def : option default_def; c_rule : rule_def;
-  c_obs : load_res }.
+(** the CEL oracle: the truth table of the driver's four condition expressions
+    (0: Request.Method == "GET", 1: == "POST", 2: != "GET", 3: true == true) on
+    its three probe methods (0 GET, 1 POST, 2 PUT).  The driver checks the real
+    CEL library against this table before it generates anything. *)
+Definition holds (c m : nat) : bool :=
+  match c, m with
+  | 0, 0 | 1, 1 | 2, 1 | 2, 2 => true
+  | 3, _ => true
+  | _, _ => false
+  end.
 
-Definition res_eqb (a b : res effective) : bool :=
+Definition res_eqb {O} (eqb : O -> O -> bool) (a b : res O) : bool :=
   match a, b with
-  | Ok x, Ok y => effective_eqb x y
+  | Ok x, Ok y => eqb x y
   | Rejected, Rejected | Panic, Panic => true
   | _, _ => false
   end.
 
-Definition load_res_eqb (a b : load_res) : bool :=
+Definition load_res_eqb {O} (eqb : O -> O -> bool) (a b : load_res O) : bool :=
   match a, b with
   | FactoryFailed, FactoryFailed | FactoryPanic, FactoryPanic => true
-  | Loaded x, Loaded y => res_eqb x y
+  | Loaded x, Loaded y => res_eqb eqb x y
   | _, _ => false
   end.
 
-(** the guard of C14-F1 on the generated input (needs the default rule to load) *)
-Definition g_F1 (c : case) : bool :=
-  match c_def c, r_bt (c_rule c) with None, Some true => true | _, _ => false end.
+(** stream 1 (and the shape of stream 3): default rule x rule definition x mode *)
+Record gcase (O : Type) := {
+  c_proxy : bool; c_def : option default_def; c_rule : rule_def; c_obs : load_res O }.
+Arguments c_proxy {O}. Arguments c_def {O}. Arguments c_rule {O}. Arguments c_obs {O}.
 
-(** [impl_fixed]: which factory the implementation is expected to be
-    (true after the fix: commit).  The property predicate always uses the
-    specification, i.e. the repaired function, whose agreement with
-    [spec_effective] is theorem C14_stagewise_inheritance. *)
-Definition check (impl_fixed : bool) (c : case) : verdict :=
-  {| v_corr := load_res_eqb (load impl_fixed (c_proxy c) (c_def c) (c_rule c)) (c_obs c);
-     v_prop := load_res_eqb (load true (c_proxy c) (c_def c) (c_rule c)) (c_obs c);
-     v_guards := guards [(1%Z, g_F1 c && negb impl_fixed)] |}.
+Definition gcheck {O} (obs_of : effective -> O) (eqb : O -> O -> bool) (c : gcase O) : verdict :=
+  {| v_corr := load_res_eqb eqb (map_load obs_of (load (c_proxy c) (c_def c) (c_rule c))) (c_obs c);
+     v_prop := prop_rule obs_of eqb (c_proxy c) (c_def c) (c_rule c) (c_obs c);
+     v_guards := [] |}.
+
+(** stream "factory": executed traces *)
+Definition check : gcase robs -> verdict := gcheck (observe holds) robs_eqb.
+(** stream "realfactory": mechanism ids per stage *)
+Definition check_ids : gcase iobs -> verdict := gcheck observe_ids iobs_eqb.
+
+(** stream "ruleset": rule sets as YAML text through the real parser,
+    processor (OnCreated / OnUpdated over [s_preload] preloaded rules) and repository *)
+Record case_rs := {
+  s_proxy : bool; s_def : option default_def; s_preload : nat; s_set : set_def; s_obs : set_res }.
+
+Definition set_res_eqb (a b : set_res) : bool :=
+  match a, b with
+  | SFactoryFailed, SFactoryFailed | SFactoryPanic, SFactoryPanic | SPanic, SPanic => true
+  | SDone x sx, SDone y sy => Bool.eqb x y && list_eqb served_eqb sx sy
+  | _, _ => false
+  end.
+
+Definition check_rs (c : case_rs) : verdict :=
+  {| v_corr := set_res_eqb (run_set holds (s_proxy c) (s_def c) (s_preload c) (s_set c)) (s_obs c);
+     v_prop := prop_set holds (s_proxy c) (s_def c) (s_preload c) (s_set c) (s_obs c);
+     v_guards := [] |}.
 
 (* constructors with short names for the generated case files *)
 Definition kv (id : option nat) (ok : bool) := {| k_id := id; k_ok := ok |}.
 Definition st a z c f i g := {| s_authn := a; s_authz := z; s_ctx := c; s_fin := f; s_if := i; s_cfg := g |}.
 Definition eh k i g := {| e_key := k; e_if := i; e_cfg := g |}.
-Definition mk k id c := {| m_kind := k; m_id := id; m_cond := c |}.
-Definition eff a h f e b := {| f_sc := a; f_sh := h; f_fi := f; f_eh := e; f_bt := b |}.
 Definition dd x e b := {| d_exec := x; d_eh := e; d_bt := b |}.
 Definition rd x e b k m := {| r_exec := x; r_eh := e; r_bt := b; r_backend := k; r_matchers_ok := m |}.
-Definition cs p d r o := {| c_proxy := p; c_def := d; c_rule := r; c_obs := o |}.
-
-(** second stream: rule sets of 1..3 definitions as YAML text through the real
-    rule-set parser, rule-set processor and repository.  The parser's validation
-    rejects a rule without any `execute` step, or with an empty method name,
-    before the factory sees any rule of the set. *)
-Inductive set_res := SFactoryFailed | SFactoryPanic | SLoaded (r : res (list effective)).
-
-Record case_rs := {
-  s_proxy : bool; s_def : option default_def; s_rules : list rule_def; s_obs : set_res }.
-
-Definition parse_ok (r : rule_def) : bool := negb (is_nil (r_exec r)) && r_matchers_ok r.
-
-Definition load_ruleset (impl_fixed : bool) (c : case_rs) : set_res :=
-  let go (def : option effective) :=
-    if forallb parse_ok (s_rules c) then SLoaded (load_rules impl_fixed (s_proxy c) def (s_rules c))
-    else SLoaded Rejected in
-  match s_def c with
-  | None => go None
-  | Some dd => match init_default dd with
-               | Ok e => go (Some e)
-               | Rejected => SFactoryFailed
-               | Panic => SFactoryPanic
-               end
-  end.
-
-Definition set_res_eqb (a b : set_res) : bool :=
-  match a, b with
-  | SFactoryFailed, SFactoryFailed | SFactoryPanic, SFactoryPanic => true
-  | SLoaded (Ok x), SLoaded (Ok y) => list_eqb effective_eqb x y
-  | SLoaded Rejected, SLoaded Rejected | SLoaded Panic, SLoaded Panic => true
-  | _, _ => false
-  end.
-
-Definition g_F1_rs (c : case_rs) : bool :=
-  match s_def c with
-  | None => existsb (fun r => match r_bt r with Some true => true | _ => false end) (s_rules c)
-  | Some _ => false
-  end.
-
-Definition check_rs (impl_fixed : bool) (c : case_rs) : verdict :=
-  {| v_corr := set_res_eqb (load_ruleset impl_fixed c) (s_obs c);
-     v_prop := set_res_eqb (load_ruleset true c) (s_obs c);
-     v_guards := guards [(1%Z, g_F1_rs c && negb impl_fixed)] |}.
-
-Definition crs p d rs o := {| s_proxy := p; s_def := d; s_rules := rs; s_obs := o |}.
+Definition t (k : kind) (id : nat) (cfg : option nat) : tmech := (k, id, cfg).
+Definition rn (e : bool) (tr : list tmech) : bool * list tmech := (e, tr).
+Definition ro runs b := {| o_runs := runs; o_bt := b |}.
+Definition io a h f e b := {| i_sc := a; i_sh := h; i_fi := f; i_eh := e; i_bt := b |}.
+Definition cs p d r (o : load_res robs) := {| c_proxy := p; c_def := d; c_rule := r; c_obs := o |}.
+Definition csi p d r (o : load_res iobs) := {| c_proxy := p; c_def := d; c_rule := r; c_obs := o |}.
+Definition crs p d k v rs o :=
+  {| s_proxy := p; s_def := d; s_preload := k; s_set := {| sd_version_ok := v; sd_rules := rs |}; s_obs := o |}.
